@@ -31,13 +31,14 @@ pub struct Sink {
     pub calls: usize,
     pub shortened: usize,
     pub interrupted: usize,
+    pub vectored: usize,
     sched: Schedule,
     pending_interrupt: bool,
 }
 
 impl Sink {
     pub fn new(sched: Schedule) -> Sink {
-        Sink { got: vec![], calls: 0, shortened: 0, interrupted: 0, sched, pending_interrupt: true }
+        Sink { got: vec![], calls: 0, shortened: 0, interrupted: 0, vectored: 0, sched, pending_interrupt: true }
     }
 }
 
@@ -84,6 +85,22 @@ impl Write for Sink {
         }
         self.got.extend_from_slice(&buf[..accept]);
         Ok(accept)
+    }
+    /// Gathered writes are part of the Write contract too: the same acceptance limit applies to
+    /// the concatenation of the buffers, so a request may be cut in the middle of a later buffer.
+    fn write_vectored(&mut self, bufs: &[io::IoSlice<'_>]) -> io::Result<usize> {
+        let total: usize = bufs.iter().map(|b| b.len()).sum();
+        if total == 0 {
+            return Ok(0);
+        }
+        let mut joined = Vec::with_capacity(total);
+        for b in bufs {
+            joined.extend_from_slice(b);
+        }
+        if bufs.iter().filter(|b| !b.is_empty()).count() > 1 {
+            self.vectored += 1;
+        }
+        self.write(&joined)
     }
     fn flush(&mut self) -> io::Result<()> {
         Ok(())
@@ -138,12 +155,23 @@ fn check_schedule(p: &Program, reference: &[u8], sched: Schedule, ctx: &mut Ctx,
 
 /// programs with long string constants (with raw newlines), many constants and methods
 fn long_string_program(t: &mut Tape) -> Prog {
-    let n = [1100usize, 3000, 9000, 70_000][t.pick(4)];
+    // besides fixed sizes, any length between 1 KiB and 4 KiB (length prefixes with every byte
+    // value, in particular 0x0A, which a line-buffered stdout treats specially)
+    let n = match t.pick(7) {
+        0 => 1100usize,
+        1 => 3000,
+        2 => 9000,
+        3 => 70_000,
+        _ => 1025 + t.pick(3072),
+    };
     let lead = ["x\n", "", "line one\nline two\n", "\n"][t.pick(4)];
     let mut s = String::from(lead);
     let fill = ["y", "ab", "é"][t.pick(3)];
     while s.len() < n {
         s.push_str(fill);
+    }
+    if fill == "y" {
+        s.truncate(n.max(lead.len())); // exact byte length for the one-byte filler
     }
     let mut p: Prog = vec![print(&s, vec![])];
     let k = t.pick(6);
